@@ -1,8 +1,133 @@
 import CsVerif.Lemmas.C13
-/-! C13 property theorems -/
+/-! C13 property theorems: a profile generated from a beacon configuration is valid and faithful.
+
+Model: `fromBeaconConfig` (Model/C13.lean) on the pretty values `settings_by_index` presents and `config.uris`;
+`WellFormedCfg` is the decidable domain of the property; `ValidTree` / `Derives` (Lemmas/C13.lean) say that a tree is the
+tree of a derivation of the generated grammar (C10's model of Lark); `specDict` is the dictionary of a tree, `expectedDict`
+the dictionary the property promises. -/
 namespace C13
+set_option maxRecDepth 100000
+
+/-! ### generated obligations: every name the generator can emit exists in the grammar, where it is emitted
+
+(`Gen.ProfileGen` = names found in the source by introspection, `Grammar` = Lark's loaded grammar; `decide +kernel`) -/
+
+/-- `profile.set_option(kw, …)`: every keyword is an alternative of the OPTION terminal, and `set OPTION string ;` exists -/
+theorem emitted_options_in_grammar : emittedOptionsOK = true := by decide +kernel
+
+/-- `block.set_option(kw, …)` / `block._pair(kw, …)`: below the block path there is a production with that label and that
+number of literals -/
+theorem emitted_statements_in_grammar : emittedStmtsOK = true := by decide +kernel
+
+/-- every block path the generator can create exists as nested block productions -/
+theorem emitted_blocks_in_grammar : emittedBlocksOK = true := by decide +kernel
+
+/-- every execute option accepted by the generator (`NtQueueApcThread_s` included) has its production -/
+theorem emitted_execute_in_grammar : emittedExecuteOK = true := by decide +kernel
+
+/-- every BeaconGate name (`BeaconGateOptions` fields and the four group names, lower-cased) has its production -/
+theorem emitted_gate_in_grammar : emittedGateOK = true := by decide +kernel
+
+/-- every BUILD argument is a data-transform block of its client block, and every step / termination label
+`DataTransformBlock` can emit is a statement of `steps` / `termination` there; the same for http-get.server.output -/
+theorem emitted_transforms_in_grammar : emittedTransformsOK = true := by decide +kernel
+
+theorem emitted_names_in_grammar :
+    emittedOptionsOK = true ∧ emittedStmtsOK = true ∧ emittedBlocksOK = true ∧ emittedExecuteOK = true ∧
+      emittedGateOK = true ∧ emittedTransformsOK = true :=
+  ⟨emitted_options_in_grammar, emitted_statements_in_grammar, emitted_blocks_in_grammar, emitted_execute_in_grammar,
+    emitted_gate_in_grammar, emitted_transforms_in_grammar⟩
+
+/-! ### generated obligations: the tables of the hand-written model are the ones the source has now -/
 
 /-- no setting value is tested twice in the if/elif chain -/
 theorem chain_keys_nodup : (actionTable.map (·.1)).Nodup := by decide +kernel
+
+/-- same settings, in the same order, with the same `and value` guards -/
+theorem chain_matches : actionTable.map (fun e => (e.1, e.2.1)) = Gen.ProfileGen.chain := by decide +kernel
+theorem options_match : modelOptions = Gen.ProfileGen.options := by decide +kernel
+theorem stmts_match : sameSet modelStmts Gen.ProfileGen.stmts = true := by decide +kernel
+theorem literals_match : sameSet modelLiterals Gen.ProfileGen.literalValues = true := by decide +kernel
+
+theorem execute_matches :
+    Gen.ProfileGen.executeEnable = execEnable.map (fun s => (toText s, toText (dashToUnderscore (lower s)))) ∧
+    Gen.ProfileGen.executeSpecial = [(toText (b "CreateThread"), toText (b "createthread_special")),
+      (toText (b "CreateRemoteThread"), toText (b "createremotethread_special"))] ∧
+    Gen.ProfileGen.executePath = (pathOf .procInj ++ [b "execute"]).map toText := by decide +kernel
+
+theorem gate_matches :
+    Gen.ProfileGen.gateNames = gateLabels.map (fun s => (toText s, toText (lower s))) ∧
+    Gen.ProfileGen.gatePath = (pathOf .stage ++ [b "beacon_gate"]).map toText ∧
+    (actionTable.find? (·.1 == Gen.ProfileGen.gateSetting)).map (·.2.2) = some Act.gate := by decide +kernel
+
+theorem transform_names_match :
+    Gen.ProfileGen.dtFlagSteps = dtFlagSteps.map toText ∧
+    Gen.ProfileGen.dtTerminationOptions = dtTermOptions.map toText ∧
+    Gen.ProfileGen.dtArgTerminations = dtArgTerms.map toText ∧
+    sameSet (Gen.ProfileGen.requestEnable.map (·.2))
+      ([EnStep.base64, .base64url, .netbios, .netbiosu, .uriAppend, .print, .mask].map fun e => toText e.pyName) = true ∧
+    sameSet (Gen.ProfileGen.requestArg.map (·.2))
+      ([ArgStep.header, .parameter, .append, .prepend].map fun e => toText e.pyName) = true ∧
+    sameSet (Gen.ProfileGen.requestStatic.map (·.2))
+      ([StaticStep.hdr, .hostHdr, .param].map fun e => toText e.pyName) = true ∧
+    sameSet (Gen.ProfileGen.recoverFlags.map (·.2) ++ Gen.ProfileGen.recoverLens.map (·.2))
+      ([RStep.append 0, .prepend 0, .base64, .print, .netbios, .netbiosu, .base64url, .mask].map fun r =>
+        match recoverOpt r with
+        | .bare n => toText n
+        | .pair n _ => toText n) = true := by decide +kernel
+
+theorem blocks_match :
+    Gen.ProfileGen.buildNames = [(12, toText (k "metadata")), (12, toText (k "output")), (13, toText (k "id")), (13, toText (k "output"))] ∧
+    Gen.ProfileGen.dtBlocks = [(12, (pathOf .getClient).map toText), (13, (pathOf .postClient).map toText)] ∧
+    Gen.ProfileGen.serverOutput = [b "http_get", b "server", b "output"].map toText ∧
+    Gen.ProfileGen.recoverSetting = 11 ∧
+    Gen.ProfileGen.finalBlocks = [[b "http_get", b "server"], [b "http_get", b "client"], [b "http_get"],
+      [b "http_post", b "client"], [b "http_post"], [b "stage"], [b "process_inject"], [b "dns_beacon"],
+      [b "http_beacon"]].map (·.map toText) := by decide +kernel
+
+theorem listProps_pinned : listProps.length = 9 := by decide +kernel
+
+
+/-! ### generation never fails -/
+
+/-- For every well-formed configuration `from_beacon_config` returns a tree (no exception). -/
+theorem generation_total (cfg : List (Nat × PVal)) (uris : List (Option Bytes)) (h : WellFormedCfg cfg uris = true) :
+    ∃ t, fromBeaconConfig cfg uris = .ok t := by
+  obtain ⟨t, ht, _⟩ := total_and_valid h
+  exact ⟨t, ht⟩
+
+/-- the settings may come in any TLV order, repeated or not: `settings_by_index` has unique keys -/
+theorem settingsByIndex_nodup (tlvs : List (Nat × PVal)) : ((settingsByIndex tlvs).map (·.1)).Nodup :=
+  settingsByIndex_keys_nodup tlvs
+
+/-! ### the generated tree is valid -/
+
+/-- For every well-formed configuration the generated tree is the tree of a well-formed derivation of the grammar as
+it is now; hence Lark's Reconstructor (C10's `printTree`) prints it, to the token sequence of that derivation. -/
+theorem generated_valid (cfg : List (Nat × PVal)) (uris : List (Option Bytes)) (h : WellFormedCfg cfg uris = true)
+    (t : PTree) (ht : fromBeaconConfig cfg uris = .ok t) :
+    ∃ d : C10.Deriv, d.WF C10.gen = true ∧ C10.toTree d = t.intern ∧
+      C10.printTree C10.gen t.intern = some d.yield ∧ printable t = true := by
+  obtain ⟨t', ht', hv⟩ := total_and_valid h
+  rw [ht] at ht'
+  cases ht'
+  obtain ⟨d, hd, hdt⟩ := valid_deriv hv
+  have hp := print_of_deriv d hd
+  rw [hdt] at hp
+  exact ⟨d, hd, hdt, hp, by simp [printable, hp]⟩
+
+/-! ### non-vacuity -/
+
+/-- sleeptime, a user agent with a quote, an http-get client program with binary arguments, an execute list, a gate list -/
+def exampleCfg : List (Nat × PVal) := [
+  (3, .int 60000), (9, .str [65, 34, 66]), (8, .str []),
+  (12, .transform [.static .hdr [65, 58, 32, 66], .build (k "metadata"), .en .base64, .arg .prepend [0, 34, 92, 255],
+    .arg .header [67]]),
+  (11, .recover [.print, .prepend 3, .base64]),
+  (51, .execute [some (k "CreateThread"), some (k "NtQueueApcThread_s")]),
+  (78, .gate [k "Core", k "ExitThread"])]
+
+example : WellFormedCfg exampleCfg [some [47, 120]] = true := by decide +kernel
+example : (fromBeaconConfig exampleCfg [some [47, 120]]).toOption.map printable = some true := by decide +kernel
 
 end C13
